@@ -55,7 +55,7 @@ def min_k(method, d):
 
 def make_spec(r, op, method, quick, force=None):
     force = force or {}
-    kind = force.get("kind") or r.choice(KINDS)
+    kind = force.get("kind") or (r.choice(KINDS) if not (op == "embed" and r.chance(1, 6)) else "twoclusters")
     D = force.get("D") or (r.choice([2, 3, 3, 4, 6]) if kind not in ("roll", "curve") else r.choice([3, 3, 4]))
     d = force.get("d") or r.choice([1, 2, 2, 3, 4] if method != "hlle" else [1, 2, 2, 3, 3, 4])
     if kind == "grid":
@@ -69,8 +69,8 @@ def make_spec(r, op, method, quick, force=None):
     intr = [list(c) for c in _ll.INTRINSIC] if kind.startswith("flat") else None
     kmin = max(min_k(method, d), 3 if op == "embed" else 1)
     c = r.choice([0, 1, 2])
-    if c == 0:
-        k = kmin
+    if c == 0 or kind == "twoclusters":
+        k = kmin            # (two clusters: small requested k, raised by check_connectivity)
     elif c == 1:
         k = N - 1
     else:
@@ -86,7 +86,11 @@ def make_spec(r, op, method, quick, force=None):
         "seed": str(r.below(1 << 30)),
         "lists": "knn" if r.chance(3, 4) else "random",
         "lseed": r.below(1 << 60),
+        # half of the cases hand the library a NON-identity range (shuffled subset of the samples the callback knows)
+        "dseed": r.below(1 << 60) if r.chance(1, 2) else None,
     }
+    if kind == "twoclusters":
+        spec["cc"] = "1"
     # flat-manifold clause: intrinsic coordinates handed to the driver when the data is exactly flat of dimension d
     if intr is not None and op == "embed" and method in ("kltsa", "hlle") and kern == "linear" and int(kind[-1]) == d:
         spec["intr"] = intr
@@ -102,6 +106,12 @@ def build_line(spec):
     pts = spec["pts"]
     N = len(pts)
     K = _ll.kernel_matrix(pts, spec["kern"], spec["kc"])
+    sel = None
+    Kall = K
+    if spec.get("dseed") is not None:
+        D = len(pts[0])
+        allp, sel = _ll.with_decoys(pts, spec["dseed"], lambda rr: [_ll.Fraction(rr.range(-1024, 1024), 128) for _ in range(D)])
+        Kall = _ll.kernel_matrix(allp, spec["kern"], spec["kc"])
     k = min(spec["k"], N - 1)
     head = "op=%s N=%d k=%d d=%d shift=%s tshift=%s" % (spec["op"], N, k, spec["d"], spec["shift"], spec["tshift"])
     if spec["op"] == "embed":
@@ -114,7 +124,9 @@ def build_line(spec):
         else:
             nb = _ll.random_lists(vlib.SplitMix64(spec["lseed"]), N, k)
         head += " nb=" + _ll.fmt_lists(nb)
-    return head + " kern=" + _ll.fmt_matrix(K)
+    if sel is not None:
+        head += " sel=" + ",".join(str(i) for i in sel)
+    return head + " kern=" + _ll.fmt_matrix(Kall)
 
 
 def label(spec):
@@ -186,6 +198,11 @@ def judge(ctx, binary, specs):
         ctx.stat("verdict:" + cls + ((":" + sig) if cls == "skip" else ""))
         ctx.stat("kernel:" + spec["kern"])
         ctx.stat("data:" + spec["kind"])
+        ctx.stat("range:" + ("shuffled-subset-among-decoys" if spec.get("dseed") is not None else "identity"))
+        if spec["op"] == "embed" and "nb" in _ll.fields_of(io) and spec.get("cc") == "1":
+            used = len(_ll.fields_of(io)["nb"].split(";")[0].split(","))
+            if used > min(spec["k"], N - 1):
+                ctx.stat("check_connectivity-raised-k")
         if spec.get("intr") and "flat" in v:
             ctx.stat("flat-manifold-clause:" + ("verified-affine" if v["flat"][:1] in ("2", "0") else v["flat"]))
         ctx.stat("d=%d" % spec["d"])
